@@ -18,6 +18,9 @@ Mirrored code:
 * `pkg/metadata/etcd_store.go`: `offsetKey`, `deleteTopicOffsets` prefix
 * `pkg/metadata/codec.go`: `TopicConfigKey`, `PartitionStateKey`, `PartitionAssignmentKey`
 * `pkg/metadata/partition_lease.go`: `partitionLeaseKey`, `partitionResourceID`
+* `cmd/broker/main.go`: the singleflight key of `getPartitionLog` (`h.logInit.Do(key, …)`,
+  `key := fmt.Sprintf("%s/%d", topic, partition)`) — `logInitKey`; `Piece`/`fmtKey` interpret the key
+  expression as it is REGENERATED from the source (`KafVerif/Gen/C22LogInit.lean`)
 -/
 namespace KafVerif.MetaKeys
 
@@ -135,6 +138,36 @@ def resourceID (t : List Char) (p : Int) : List Char := t ++ '/' :: intStr p
 def partitionKey (t : List Char) (p : Int) : List Char := t ++ ':' :: intStr p
 /-- prefix removed by `InMemoryStore.DeleteTopic`. -/
 def memDeletePrefix (t : List Char) : List Char := t ++ [':']
+
+/-- `getPartitionLog`: `key := fmt.Sprintf("%s/%d", topic, partition)`, the key of the singleflight
+group `handler.logInit`.  Two requests with the same key share ONE initialisation and receive the same
+`*PartitionLog` (whose S3 prefix, cache key and offset callback are those of the first caller's
+topic/partition). -/
+def logInitKey (t : List Char) (p : Int) : List Char := t ++ '/' :: intStr p
+
+/-- One piece of a key expression over the topic name and the partition number
+(`fmt.Sprintf` verbs, `fmt.Sprint` operands, `+` operands, as extracted from the source). -/
+inductive Piece where
+  | topic
+  | part
+  | lit (s : List Char)
+  deriving DecidableEq, Repr
+
+/-- The string a key expression evaluates to. -/
+def fmtKey : List Piece → List Char → Int → List Char
+  | [], _, _ => []
+  | .topic :: r, t, p => t ++ fmtKey r t p
+  | .part :: r, t, p => intStr p ++ fmtKey r t p
+  | .lit s :: r, t, p => s ++ fmtKey r t p
+
+/-- The key expressions proved collision-free: topic, ONE separator byte that no accepted topic name
+and no formatted integer contains, partition. -/
+def formatSafe : List Piece → Bool
+  | [.topic, .lit [c], .part] => !legalChar c
+  | _ => false
+
+/-- The format of `logInitKey` (what HEAD has). -/
+def logInitFormat : List Piece := [.topic, .lit ['/'], .part]
 
 /-- The S3 object keys of one partition (for two base offsets `b`). -/
 def s3Keys (ns t : List Char) (p b : Int) : List (List Char) := [segmentKey ns t p b, indexKey ns t p b]
